@@ -51,6 +51,28 @@ def check_static(case) -> Result:
     c2, d2 = pt.comp_mass(e)
     if {k: v for k, v in c1.items() if v} != {k: v for k, v in c2.items() if v} or abs(d1 - d2) > 1e-9:
         r.fail('same composition as the explicit form', 'C12/comp', rule=[c1, d1], explicit=[c2, d2], **ctx)
+    if term:
+        # ProForma 2.0 spells the terminal targets 'N-term' / 'C-term' (the library writes 'N-Term' / 'C-Term'): same rule
+        s_spec = s.replace('N-Term', 'N-term').replace('C-Term', 'C-term')
+        for mono in (True, False):
+            m1 = pt.mass(s_spec, monoisotopic=mono)
+            m2 = pt.mass(e, monoisotopic=mono)
+            if abs(m1 - m2) > 1e-6:
+                r.fail('same mass as the explicit form', 'C12/mass/terminal-target-in-ProForma-spelling-ignored' + ('' if mono else '/average'),
+                       rule=m1, explicit=m2, rule_form_spec_spelling=s_spec, **ctx)
+                break
+        c3, d3 = pt.comp_mass(s_spec)
+        if {k: v for k, v in c3.items() if v} != {k: v for k, v in c2.items() if v} or abs(d3 - d2) > 1e-9:
+            r.fail('same composition as the explicit form', 'C12/comp/terminal-target-in-ProForma-spelling-ignored', rule=[c3, d3],
+                   explicit=[c2, d2], rule_form_spec_spelling=s_spec, **ctx)
+        if pt.condense_static_mods(s_spec) != pt.condense_static_mods(s):
+            r.fail('condensing the rule produces the explicit form', 'C12/condense/terminal-target-in-ProForma-spelling-ignored',
+                   got=pt.condense_static_mods(s_spec), expected=pt.condense_static_mods(s), **ctx)
+        fs1 = [(f.start, f.end, round(f.mass, 6)) for f in pt.fragment(s_spec, ['b', 'y'], [1])]
+        fs2 = [(f.start, f.end, round(f.mass, 6)) for f in pt.fragment(s, ['b', 'y'], [1])]
+        if fs1 != fs2:
+            r.fail('same fragment ions as the explicit form', 'C12/fragment/terminal-target-in-ProForma-spelling-ignored',
+                   rule_form_spec_spelling=s_spec, **ctx)
     k1, k2 = pt.count_residues(s), pt.count_residues(e)
     if dict(k1) != dict(k2):
         r.fail('same modified-residue counts as the explicit form', 'C12/count_residues', rule=dict(k1), explicit=dict(k2), **ctx)
